@@ -8,6 +8,7 @@ package main
 import (
 	"bytes"
 	"fmt"
+	"io"
 	"log"
 	"net/http"
 	"sort"
@@ -161,7 +162,16 @@ func mutKind(m string) string {
 func judgeFile(r *mon.Run, s *signed, f []byte, class, mut string, sampleEvery int) {
 	var e *signedexchange.Exchange
 	var err error
-	p, pv := r.Call(fmt.Sprintf("%s/%s/%s/read", s.desc, class, mut), f, func() { e, err = signedexchange.ReadExchange(bytes.NewReader(f)) })
+	// read from a private copy that the "caller" overwrites as soon as ReadExchange has returned
+	mem := append([]byte{}, f...)
+	var src io.Reader = bytes.NewReader(mem)
+	if len(f)%2 == 0 {
+		src = bytes.NewBuffer(mem)
+	}
+	p, pv := r.Call(fmt.Sprintf("%s/%s/%s/read", s.desc, class, mut), f, func() { e, err = signedexchange.ReadExchange(src) })
+	for i := range mem {
+		mem[i] = 0xCC
+	}
 	if p {
 		r.Eval(class + ":PANIC")
 		r.Violation(fmt.Sprintf("ver:%s:%s:%s:readpanic", s.desc, class, mut), fmt.Sprintf("ReadExchange panicked on a mutated file (%s %s): %v", s.desc, mut, pv), map[string]any{"file_hex": mon.Hex(f)})
